@@ -265,6 +265,107 @@ type nilErr struct{ x int }
 
 func (e *nilErr) Error() string { return fmt.Sprint(e.x) }
 
+// values implementing SEVERAL of the interfaces the handler distinguishes (json.Marshaler, error, AnsiString,
+// everything else through encoding/json, which itself prefers Marshaler over TextMarshaler); what must be decoded
+// follows the handler's documented order: a json.Marshaler is its JSON, else an error is its Error() text.
+type errM struct {
+	msg    string
+	fields map[string]string
+}
+
+func (e errM) Error() string { return e.msg }
+func (e errM) MarshalJSON() ([]byte, error) {
+	return json.Marshal(map[string]any{"error": e.msg, "fields": e.fields})
+}
+
+type errMP struct{ code int }
+
+func (e *errMP) Error() string { return "code " + strconv.Itoa(e.code) }
+func (e *errMP) MarshalJSON() ([]byte, error) {
+	return []byte(`{"code":` + strconv.Itoa(e.code) + `}`), nil
+}
+
+type errTM struct{ a, b string }
+
+func (e errTM) Error() string                { return e.a }
+func (e errTM) MarshalText() ([]byte, error) { return []byte(e.b), nil }
+
+type errTMP struct{ a string }
+
+func (e *errTMP) Error() string                { return e.a }
+func (e *errTMP) MarshalText() ([]byte, error) { return []byte("text:" + e.a), nil }
+
+type mTM struct{ s string }
+
+func (m mTM) MarshalJSON() ([]byte, error) { return json.Marshal([]string{"json", m.s}) }
+func (m mTM) MarshalText() ([]byte, error) { return []byte("text " + m.s), nil }
+
+type errS struct{ a, b string }
+
+func (e errS) Error() string  { return e.a }
+func (e errS) String() string { return e.b }
+
+type errMFail struct{ s string } // error AND a Marshaler that fails: the encoding error is what shows up
+
+func (e errMFail) Error() string                { return "E:" + e.s }
+func (e errMFail) MarshalJSON() ([]byte, error) { return nil, errors.New("M:" + e.s) }
+
+type ansi2 logger.AnsiString // same fields, another type: an ordinary struct for encoding/json
+
+type ansiM struct{ logger.AnsiString }
+
+func (a ansiM) MarshalJSON() ([]byte, error) { return json.Marshal("ansi:" + a.Value) }
+
+type ansiErr struct{ logger.AnsiString }
+
+func (a ansiErr) Error() string { return "ansierr:" + a.Value }
+
+type tmP struct{ s string }
+
+func (t *tmP) MarshalText() ([]byte, error) { return []byte(t.s), nil }
+
+func (g *gen) multi() any {
+	s, t := g.str(), g.str()
+	switch g.r.Intn(18) {
+	case 0:
+		return errM{s, map[string]string{t: s}}
+	case 1:
+		return errM{s, nil}
+	case 2:
+		return &errMP{g.r.Intn(1000)}
+	case 3:
+		return (*errMP)(nil) // a json.Marshaler: encoding/json writes null without calling it
+	case 4:
+		return errTM{s, t}
+	case 5:
+		return &errTMP{s}
+	case 6:
+		return (*errTMP)(nil) // an error whose Error dereferences nil: "<nil>"
+	case 7:
+		return mTM{s}
+	case 8:
+		return errS{s, t}
+	case 9:
+		return errMFail{s}
+	case 10:
+		return ansi2{Prefix: "\x1b[31m", Value: s}
+	case 11:
+		return ansiM{logger.AnsiString{Value: s}}
+	case 12:
+		return ansiErr{logger.AnsiString{Value: s}}
+	case 13:
+		return &logger.AnsiString{Prefix: "p", Value: s} // a pointer is not an AnsiString
+	case 14:
+		return (*logger.AnsiString)(nil)
+	case 15:
+		return &tmP{s}
+	case 16:
+		return (*tmP)(nil)
+	default:
+		return &errM{s, map[string]string{"k": t}} // pointer to a value-receiver type implements both as well
+	}
+}
+
 type sT struct {
 	A string            `json:"a"`
 	B float64           `json:"b,omitempty"`
@@ -357,7 +458,10 @@ func (g *gen) time() time.Time {
 
 // leaf returns one non-group slog.Value of every kind the handler distinguishes.
 func (g *gen) leaf() slog.Value {
-	switch g.r.Intn(30) {
+	switch g.r.Intn(34) {
+	case 30, 31, 32, 33:
+		kindCount["multi_interface"]++
+		return slog.AnyValue(g.multi())
 	case 0, 1, 2, 3:
 		return slog.StringValue(g.str())
 	case 4:
@@ -1388,6 +1492,18 @@ func runC01(e *hk.Env) error {
 					keepLine(c, 1)
 					ncases++
 				}
+			}
+		}
+		// values implementing several interfaces, as record attrs, With attrs, group members, behind LogValuers
+		{
+			gm := &gen{hk.NewRng(77)}
+			for k := 0; k < 72; k++ {
+				v := gm.multi()
+				a := slog.Any("v", v)
+				as := []slog.Attr{a, slog.Group("g", slog.Any("m", v)), slog.Any("l", lv{slog.AnyValue(v)}), slog.Any("ll", lv{slog.AnyValue(lv{slog.GroupValue(slog.Any("x", v))})})}
+				c := runHandlerCase(e, false, k%5, testTime, "multi", []chainStep{{isAt: true, attrs: []slog.Attr{a}}, {group: "w"}, {isAt: true, attrs: []slog.Attr{slog.Group("", a)}}}, as, false)
+				c.emit(e)
+				ncases++
 			}
 		}
 		// the reproduction through the Logger: logger.With(slog.Group("")).Info("m","k",1)
